@@ -369,3 +369,30 @@ VARIANTS += [
  dict(name='read-helper-returns-cached-copy', expect='flagged(reader/decodes-those-bytes)',
       edits=read_helper(ret='\tif len(lastEntry) > len(contentBytes) {\n\t\treturn lastEntry, nil\n\t}\n\tlastEntry = contentBytes\n\treturn contentBytes, nil\n') + [(C, '// NewFileCache creates a FileCache', 'var lastEntry []byte\n\n// NewFileCache creates a FileCache')]),
 ]
+
+# ---- third pass: the write step of Set in a helper of the package (extract-helper at the write boundary)
+WRITE_OLD = '\tif err := file.WriteFile(c.root, filepath.Join(c.root, c.fileName(url)), contentBytes); err != nil {\n\t\treturn fmt.Errorf("failed to store crl bundle in file cache: %w", err)\n\t}\n\treturn nil\n}\n'
+def write_helper(call='c.writeEntry(url, contentBytes)', stmt=None, body='\treturn file.WriteFile(c.root, filepath.Join(c.root, c.fileName(url)), content)\n', extra=None, imports=None):
+    if stmt is None:
+        stmt = '\tif err := ' + call + '; err != nil {\n\t\treturn fmt.Errorf("failed to store crl bundle in file cache: %w", err)\n\t}\n'
+    e = [(C, WRITE_OLD, stmt + '\treturn nil\n}\n\n// writeEntry stores content as the entry of url\nfunc (c *FileCache) writeEntry(url string, content []byte) error {\n' + body + '}\n')]
+    if extra:
+        e += extra
+    if imports:
+        e.append((C, '\t"path/filepath"\n', '\t"path/filepath"\n' + imports))
+    return e
+VARIANTS += [
+ dict(name='benign-set-write-helper', expect='silent', edits=write_helper(),
+      why='the one call of the writer stands in a helper only Set calls, once: temp dir and destination read root and Join(root, key(url)) in Set\'s frame, the content is the fresh encoding Set passes'),
+ dict(name='benign-set-write-helper-wraps-error', expect='silent',
+      edits=write_helper(stmt='\tif err := c.writeEntry(url, contentBytes); err != nil {\n\t\treturn err\n\t}\n',
+                         body='\tif err := file.WriteFile(c.root, filepath.Join(c.root, c.fileName(url)), content); err != nil {\n\t\treturn fmt.Errorf("failed to store crl bundle in file cache: %w", err)\n\t}\n\treturn nil\n')),
+ dict(name='write-helper-also-called-from-get', expect='flagged(set/uses-writer)',
+      edits=write_helper(extra=[(C, '\t// decode content to crl Bundle\n', '\t_ = c.writeEntry(url, contentBytes) // refresh the entry\n\n\t// decode content to crl Bundle\n')])),
+ dict(name='write-helper-temp-in-os-tempdir', expect='flagged(set/temp-in-cache-root)', edits=write_helper(body='\treturn file.WriteFile(os.TempDir(), filepath.Join(c.root, c.fileName(url)), content)\n')),
+ dict(name='write-helper-fed-trimmed-url', expect='flagged(set/destination)', edits=write_helper(call='c.writeEntry(strings.TrimSuffix(url, "/"), contentBytes)', imports='\t"strings"\n')),
+ dict(name='write-helper-destination-is-url', expect='flagged(set/destination)', edits=write_helper(body='\treturn file.WriteFile(c.root, filepath.Join(c.root, filepath.Base(url)), content)\n')),
+ dict(name='write-helper-fed-view-of-bytes', expect='flagged(writer/content-owned)', edits=write_helper(call='c.writeEntry(url, contentBytes[:len(contentBytes)&^511])')),
+ dict(name='write-helper-writes-in-place-too', expect='flagged(who-may-write)',
+      edits=write_helper(body='\tif err := os.WriteFile(filepath.Join(c.root, c.fileName(url)+".bak"), content, 0600); err != nil {\n\t\treturn err\n\t}\n\treturn file.WriteFile(c.root, filepath.Join(c.root, c.fileName(url)), content)\n')),
+]
